@@ -169,7 +169,7 @@ func TestC12N(t *testing.T) {
 			nc.Cfg.AcceptAllAt = []int{nc.Me} // this node's ValidateBlockProposal approves anything, even a missing block
 		}
 		if nc.Cfg.N >= 5 && rapid.IntRange(0, 5).Draw(t, "out-of-committee") == 0 {
-			nc.Cfg.Absent, nc.Cfg.AbsentH, nc.Cfg.MaxHeight = []int{nc.Me}, 1, 3 // the node is not a member of its current height's committee (one more height: sync, then a round)
+			nc.Cfg.Absent, nc.Cfg.AbsentH, nc.Cfg.MaxHeight = []int{nc.Me}, 1, nc.Cfg.MaxHeight+1 // the node is not a member of its current height's committee (one more height: sync, then a round)
 		}
 		c := c12Case{N: nc}
 		c.Mode = rapid.SampledFrom([]string{"raw", "raw", "struct"}).Draw(t, "mode")
